@@ -4,7 +4,7 @@ from tools import vlib, t3
 from tools.vlib import unhx
 
 MODULE = "PropC08"
-THEOREMS = ["C08_code_conforms", "C08_process_order", "C08_creation_is_arrival_order", "C08_final_order", "C08_fanin_order"]
+THEOREMS = ["C08_code_conforms", "C08_process_order", "C08_creation_is_arrival_order", "C08_final_order", "C08_fanin_order", "C08_cone_conforms"]
 
 
 def build_burst(rng, i):
